@@ -18,8 +18,9 @@ Definition s_dotdot : str := [c_dot; c_dot].
 Definition s_url : str := [58; c_slash; c_slash].       (* "://" *)
 Definition s_home_slash : str := [c_tilde; c_slash].    (* "~/" *)
 
-Definition classify (t : str) : kind :=
-  if infixb s_url t then KUrl
+(* _classify_token(token, allow_url=...): a redirect target is always a file name *)
+Definition classify_gen (allow_url : bool) (t : str) : kind :=
+  if allow_url && infixb s_url t then KUrl
   else if prefixb [c_dollar] t then KVar
   else if prefixb [c_slash] t then KAbs
   else if str_eqb t [c_tilde] || prefixb s_home_slash t then KHome
@@ -27,6 +28,7 @@ Definition classify (t : str) : kind :=
   else if str_eqb t s_dot || str_eqb t s_dotdot || prefixb [c_dot; c_slash] t
           || prefixb [c_dot; c_dot; c_slash] t || mem_ch c_slash t then KRel
   else KBare.
+Definition classify (t : str) : kind := classify_gen true t.
 
 (* ---- lexical normal form ---- *)
 Definition seg_step (stack : list str) (seg : str) : list str :=
@@ -60,7 +62,7 @@ Section Paths.
   Variable home : str.
 
   Definition expand_token (cwd : str) (force : bool) (t : str) : str :=
-    match classify t with
+    match classify_gen (negb force) t with
     | KUrl | KVar | KUserHome => t
     | KAbs => resolve1 t
     | KHome => resolve1 (home ++ tl t)
@@ -93,15 +95,34 @@ Section Paths2.
   Definition normalize_pattern (cwd p : str) : str :=
     join [c_sp] (map (normalize_token resolve1 resolve2 home cwd) (split_py p)).
 
-  (* _normalize_path: path.rstrip("/"), force_path=True *)
+  (* _normalize_path: path.rstrip("/") - but "/", "//", ... stay the root - then force_path=True *)
+  Definition strip_target (p : str) : str :=
+    let t := rstrip [c_slash] p in
+    if nonempty p && negb (nonempty t) then [c_slash] else t.
   Definition normalize_path (cwd p : str) : str :=
-    expand_token resolve1 resolve2 home cwd true (rstrip [c_slash] p).
+    expand_token resolve1 resolve2 home cwd true (strip_target p).
 
   (* the absolute path a target denotes, read lexically (the specification side of C09) *)
   Definition is_home (p : str) : bool := str_eqb p [c_tilde] || prefixb s_home_slash p.
   Definition full (cwd p : str) : str := if is_home p then home ++ tl p else pjoin cwd p.
   Definition nf (cwd p : str) : str := norm (full cwd p).
 End Paths2.
+
+(* Legacy: _normalize_path before the repair 67c5613 ("a redirect target is always a file name,
+   and '/' is the root directory"): URL classification also for targets, "/" stripped to "". *)
+Section Legacy.
+  Variable resolve1 : str -> str.
+  Variable resolve2 : str -> str -> str.
+  Variable home : str.
+  Definition legacy_normalize_path (cwd p : str) : str :=
+    let t := rstrip [c_slash] p in
+    match classify t with
+    | KUrl | KVar | KUserHome => t
+    | KAbs => resolve1 t
+    | KHome => resolve1 (home ++ tl t)
+    | KRel | KBare => resolve2 cwd t
+    end.
+End Legacy.
 
 (* the symlink-free hypothesis under which C09 is stated *)
 Definition lexical (resolve1 : str -> str) (resolve2 : str -> str -> str) : Prop :=
